@@ -102,13 +102,15 @@ def run(ctx, replay):
     ctx.count("T", vfs_lines=len(vevs))
     # negative sample: a rename that precedes the sync must be reported
     bad = [dict(x) for x in vevs[:40]]
-    si = next(i for i, x in enumerate(bad) if x["call"] == "Sync")
-    ri = next(i for i, x in enumerate(bad) if x["call"] == "Rename")
-    bad[si], bad[ri] = bad[ri], bad[si]
-    bf = ctx.path("vfs_bad.ndjson")
-    vlib.write_jsonl(bf, bad)
-    if not ctx.tlc_trace("Trace_FilesVFS", "Trace_FilesVFS.cfg", bf)["viols"]:
-        raise vlib.MachineryError("negative sample (rename before sync) was not reported by Trace_FilesVFS")
+    si = next((i for i, x in enumerate(bad) if x["call"] == "Sync"), None)
+    ri = next((i for i, x in enumerate(bad) if x["call"] == "Rename"), None)
+    if si is not None and ri is not None and si < ri:
+        bad[si], bad[ri] = bad[ri], bad[si]
+        bf = ctx.path("vfs_bad.ndjson")
+        vlib.write_jsonl(bf, bad)
+        if not ctx.tlc_trace("Trace_FilesVFS", "Trace_FilesVFS.cfg", bf)["viols"]:
+            raise vlib.MachineryError("negative sample (rename before sync) was not reported by Trace_FilesVFS")
+        ctx.count("T", negative_samples_rejected=1)
     # diskpacked: default pack size and a tiny one (roll-over inside the history)
     for mx in (["0", "260"] if quick else ["0", "150", "260", "400"]):
         do = ctx.path("dp_%s.ndjson" % mx)
